@@ -111,6 +111,12 @@ def gen_latest_cfg(seed: int) -> dict:
         calls = sorted(round(rng.random() * horizon * 1.3, 3) for _ in range(rng.randint(1, 12)))
         clients.append({'cid': cid, 'selector': rng.randrange(len(selectors)),
                         'calls': [{'at': t, 'reg': rng.randrange(nreg)} for t in calls]})
+    # a descriptor (and the selector in it) is pickled whenever it crosses a process boundary: from a seeded call on the
+    # client goes on with a pickled copy of its selector - possibly one that has served already (warm cache)
+    ship = random.Random(seed ^ 0x5417)
+    for spec in clients:
+        if ship.random() < 0.3 and len(spec['calls']) > 1:
+            spec['ship_at'] = ship.randrange(1, len(spec['calls']))
     faults = {}
     if rng.random() < 0.4:
         faults['stall'] = rng.choice([0.001, 0.01])
@@ -268,9 +274,12 @@ def simulate_latest(cfg: dict, root: str, schedule: typing.Optional[list] = None
 
     def client(spec: dict):
         selector = selectors[spec['selector']]
-        for call in spec['calls']:
+        for number, call in enumerate(spec['calls']):
             if call['at'] > kernel.now:
                 kernel.sleep(call['at'] - kernel.now, 'client.wait')
+            if number == spec.get('ship_at'):
+                selector = pickle.loads(pickle.dumps(selector))
+                kernel.stats['fault:selector-shipped-as-pickle'] += 1
             rec = {'cid': spec['cid'], 'selector': spec['selector'], 'reg': call['reg'], 't0': kernel.now,
                    's0': kernel.step}
             try:
